@@ -57,17 +57,24 @@ def run_rid(rep, tier):
     st = St()
     ptr, s = sym_str(st, 's', K)
     rex = None
-    for s2, v in models_regex.M_lazy_deref(it, type('C', (), {'self_ty': ('path', 'conjure_object::resource_identifier::PARSE_REGEX', ())})(), [], st.fork()):
-        rex = s2.deref(v)
-    nodes = models_regex.compile_pattern(rex.fields[0])
-    accepts, groups = models_regex.analyse(nodes, s)
+    from mirsym.parse import Unsupported as _Unsup
+    try:
+        for s2, v in models_regex.M_lazy_deref(it, type('C', (), {'self_ty': ('path', 'conjure_object::resource_identifier::PARSE_REGEX', ())})(), [], st.fork()):
+            rex = s2.deref(v)
+    except _Unsup:
+        rex = None          # the implementation no longer parses with a regex: the entry paths below are compared with the grammar directly
     gram, alts = rid_grammar(s)
-    m = dec.decide('rid:pattern-literal==spec-grammar', st, accepts != gram, bound=K)
-    if m is not None:
-        report(rep, 'rid', 'pattern', model_bytes(m, s), 'the PARSE_REGEX literal and the specification grammar disagree')
-    m = dec.decide('rid:pattern-groups-unambiguous', st, models_regex.ambiguity(nodes, s), bound=K)
-    if m is not None:
-        rep.inconc(f'regex model: capture groups ambiguous for {model_bytes(m, s)!r}; leftmost-first semantics would be needed')
+    if rex is not None:
+        nodes = models_regex.compile_pattern(rex.fields[0])
+        accepts, groups = models_regex.analyse(nodes, s)
+        m = dec.decide('rid:pattern-literal==spec-grammar', st, accepts != gram, bound=K)
+        if m is not None:
+            report(rep, 'rid', 'pattern', model_bytes(m, s), 'the PARSE_REGEX literal and the specification grammar disagree')
+        m = dec.decide('rid:pattern-groups-unambiguous', st, models_regex.ambiguity(nodes, s), bound=K)
+        if m is not None:
+            rep.inconc(f'regex model: capture groups ambiguous for {model_bytes(m, s)!r}; leftmost-first semantics would be needed')
+    else:
+        rep.extra['rid_regex'] = 'absent: hand-written parser executed from MIR'
     # ---- entry paths on real MIR
     entries = {
         'from_str': (fn('::from_str')[0], 'direct'),
